@@ -138,6 +138,15 @@ CHECKS = {
         "of {conjunction, disjunction, implication per block; aggregation, defuzzifier per output} are removed from valid engines.",
         note="needed operators are derived from the generator's rule trees and defuzzifier kinds; all components enabled in this workload; over-reporting is not a violation",
     ),
+    "C18": dict(
+        level="exploration",
+        technique="runtime monitors on FldExporter.to_string_from_scope/to_string_from_reader (deep copy at entry) with an offline checker of the returned text: own integer-root grid enumeration + row-by-row float replay on the restarted copy, text equality at the configured decimals",
+        text="Every observed dataset export is checked line by line: header, number of rows (v^n for each variable, k^n with the integer root "
+        "for all variables), each row's inputs against the monitor's own lexicographic grid and each row's outputs against a float-mode "
+        "replay on a restarted copy; sizes include every perfect square/cube/4th power up to 2000 and its neighbours, 1-4 inputs, all "
+        "switches, separators and decimals; reader exports with comments, blank and skipped lines.",
+        note="batch == float is C02's business; inputs one unit in the last place away are counted ambiguous; long tables are replayed on 96 sampled rows when lock-previous is off",
+    ),
 }
 NOT_APPLICABLE = [
     {"property_id": p, "reason": "check not built yet in this session (work in progress; see DESIGN.md §4)"} for p in ALL if p not in CHECKS
